@@ -197,13 +197,17 @@ class ConvexPolygon(Polygon):
         return Circle(radius, self.center)
 
     def distance_to_surface(self, angles):  # noqa: D102
+        return self._distance_to_surface_from(angles, self.center)
+
+    def _distance_to_surface_from(self, angles, center):
+        """Compute the distance from an interior point to the boundary."""
         # Bring the angles into the range for testing (also handles an
         # np.asarray for us).
         angles = np.mod(angles, 2 * np.pi)
         num_verts = len(self.vertices)
 
         # Rearrange the verts so that we start with the lowest angle
-        verts, _ = _align_points_by_normal(self.normal, self.vertices - self.center)
+        verts, _ = _align_points_by_normal(self.normal, self.vertices - center)
         angles_to_vertices = np.arctan2(verts[:, 1], verts[:, 0])
         np.mod(angles_to_vertices, 2 * np.pi, out=angles_to_vertices)
 
